@@ -1,6 +1,7 @@
 package crash
 
 import (
+	"bytes"
 	"fmt"
 	"io"
 	"os"
@@ -233,6 +234,30 @@ func powerLossCampaign(p Prog, all bool, variants []int) (crashStats, error) {
 	} else {
 		pts = stratified(dry.AckPath, p.Points, total)
 	}
+	// write batches whose memtable rotation fell between two of their requests: part of the batch sits
+	// in the WAL of the rotated memtable, the rest in the new one. Aim extra loss points at the end of
+	// such a batch (the rotated memtable is usually not flushed yet).
+	aimed := map[int]bool{}
+	rot := batchRotationPoints(dry.AckPath)
+	cs.batchRot = len(rot)
+	have := map[int]bool{}
+	for _, n := range pts {
+		have[n] = true
+	}
+	for i, n := range rot {
+		if !all && i >= 2 {
+			break
+		}
+		for _, m := range []int{n, n + 1, n + 3} {
+			if m <= total {
+				aimed[m] = true
+				if !have[m] {
+					have[m] = true
+					pts = append(pts, m)
+				}
+			}
+		}
+	}
 	for i, n := range pts {
 		variant := variants[i%len(variants)]
 		dir := filepath.Join(base, fmt.Sprintf("k%d", n))
@@ -257,6 +282,9 @@ func powerLossCampaign(p Prog, all bool, variants []int) (crashStats, error) {
 		site := killSite(c.AckPath)
 		cs.sites[site]++
 		cs.runs++
+		if aimed[n] {
+			cs.batchRotRuns++
+		}
 		if acked > 0 {
 			cs.midOp++
 		}
@@ -284,6 +312,39 @@ func powerLossCampaign(p Prog, all bool, variants []int) (crashStats, error) {
 	return cs, nil
 }
 
+// batchRotationPoints returns, from the site log of the dry run, the hook index of the "write.lsm.done"
+// hook of every write batch in which the memtable was rotated after at least one request of the same
+// batch had already been written (hooks of other goroutines interleave; their names differ).
+func batchRotationPoints(dryAck string) []int {
+	raw, _ := os.ReadFile(dryAck)
+	var out []int
+	reqs, rotated := 0, false
+	for _, line := range bytes.Split(raw, []byte("\n")) {
+		if len(line) < 3 || line[0] != 'S' {
+			continue
+		}
+		var n int
+		var name string
+		fmt.Sscanf(string(line[2:]), "%d %s", &n, &name)
+		switch name {
+		case "write.vlog.pre":
+			reqs, rotated = 0, false
+		case "write.lsm.req":
+			reqs++
+		case "mt.rotate.done":
+			if reqs > 0 {
+				rotated = true
+			}
+		case "write.lsm.done":
+			if rotated {
+				out = append(out, n)
+			}
+			reqs, rotated = 0, false
+		}
+	}
+	return out
+}
+
 // c10StrictDir switches the campaign to the strict directory-entry model (variant 2). Used by the
 // known-finding witness and, with VERIF_STRICT set, as a development aid.
 var c10StrictDir = os.Getenv("VERIF_STRICT") != ""
@@ -298,12 +359,14 @@ func TestKF_C10StrictDir(t *testing.T) {
 	TestC10_PowerLoss(t)
 }
 
+var wPower = map[string]int{"txn": 10, "burst": 3, "asyncburst": 3, "batchrot": 4, "flush": 4, "compact": 4, "gc": 1, "churn": 1, "reopen": 1}
+
 func TestC10_PowerLoss(t *testing.T) {
 	all := core.Thorough()
 	core.Run(t, "C10", "powerloss",
-		"rapid-generated single-committer workloads with SyncWrites=true (transactions, flushes, compactions, GC, re-opens) run in a child process that maintains a durability shadow: per file the bytes it had when badger announced an msync/fsync of it, per directory the listing at the last directory fsync. At the n-th hook (quick: 6 sampled hooks per workload, thorough: every hook) the child materialises the adversarial power-loss image - every file holds exactly its last synced content, a never-synced file reads as zeros (variant 0) or is empty (variant 1) - and dies; the parent opens the image. Oracle as C08: Open succeeds, state = a commit prefix containing every acknowledged commit, structure intact, further commits work. Known finding (strict directory-entry model, variant 2) is handled by a separate witness. Non-trivial = the loss point came after >=1 acknowledged commit.",
+		"rapid-generated single-committer workloads with SyncWrites=true (transactions; asynchronous bursts committed back to back with CommitWith, which form write batches of several requests, some sized to fill the memtable so that its rotation falls between two requests of one batch; flushes, compactions, GC, re-opens) run in a child process that maintains a durability shadow: per file the bytes it had when badger announced an msync/fsync of it, per directory the listing at the last directory fsync. At the n-th hook (quick: 6 sampled hooks per workload plus 3 aimed at the end of each of up to two batches that the dry run shows with a rotation between two requests; thorough: every hook) the child materialises the adversarial power-loss image - every file holds exactly its last synced content, a never-synced file reads as zeros (variant 0) or is empty (variant 1) - and dies; the parent opens the image. Oracle as C08: Open succeeds, state = a commit prefix containing every acknowledged commit, structure intact, further commits work. Known finding (strict directory-entry model, variant 2) is handled by a separate witness. Non-trivial = the loss point came after >=1 acknowledged commit.",
 		func(rt *rapid.T) Prog {
-			return Gen(rt, GenCfg{MinOps: 4, MaxOps: 20, Weights: wCrash, AllowEnc: true, NPoints: 6, SyncWrites: true})
+			return Gen(rt, GenCfg{MinOps: 4, MaxOps: 20, Weights: wPower, AllowEnc: true, NPoints: 6, SyncWrites: true})
 		},
 		func(p Prog, rec *evid.Rec) (core.Result, error) {
 			variants := []int{0, 2, 1, 2}
@@ -314,6 +377,8 @@ func TestC10_PowerLoss(t *testing.T) {
 			res := core.Result{NonTrivial: cs.midOp > 0}
 			rec.Add("hooks_in_dry_run", cs.points)
 			rec.Add("loss_runs", cs.runs)
+			rec.Add("batches_rotated_between_requests", cs.batchRot)
+			rec.Add("loss_runs_aimed_at_such_a_batch", cs.batchRotRuns)
 			for s, n := range cs.sites {
 				if s != "" {
 					rec.Add("site:"+s, n)
@@ -321,6 +386,9 @@ func TestC10_PowerLoss(t *testing.T) {
 			}
 			if cs.midOp > 0 {
 				res.Classes = append(res.Classes, "loss_after_acked_commit")
+			}
+			if cs.batchRot > 0 {
+				res.Classes = append(res.Classes, "batch_rotated_between_requests")
 			}
 			return res, err
 		})
